@@ -101,7 +101,8 @@ impl Spec {
     fn body(&self, deps: &str, hold_rc: bool) -> String {
         let rc = if hold_rc { "    let __rc = Rc::new(5);\n" } else { "" };
         let use_rc = if hold_rc { "    let _ = *__rc;\n" } else { "" };
-        format!("{{\n{rc}    rt::yield_once().await;\n{use_rc}    {}\n}}", self.value(deps))
+        // the body leaves a trace entry *after* its await point: a future that is created but never awaited leaves none
+        format!("{{\n{rc}    rt::yield_once().await;\n{use_rc}    rt::trace(String::from(\"BODY\"));\n    {}\n}}", self.value(deps))
     }
     fn call_values(&self) -> String {
         let mut v: Vec<String> = (0..self.n_args.max(1))
@@ -184,7 +185,7 @@ fn build(spec: &Spec, negative: Option<&str>) -> (String, String) {
             let tf = if ret_is_gen && spec.concrete { "::<i64>" } else { tf };
             let tfish = if ret_is_gen { "::<i64>" } else { "" };
             src.push_str(&format!(
-                "pub fn run() -> Vec<String> {{\n    let mut fails = vec![];\n    let app = {mk};\n    let direct = format!(\"{{:?}}\", rt::block_on(the_fn{tf}({recv_direct}, {vals})));\n    let via = format!(\"{{:?}}\", rt::block_on(TheTrait{tfish}::the_fn(&app, {vals})));\n    rt::expect_eq(&mut fails, \"awaited result of the trait method vs the fn\", &via, &direct);\n    fails\n}}\n"
+                "pub fn run() -> Vec<String> {{\n    let mut fails = vec![];\n    let app = {mk};\n    let _ = rt::take();\n    let direct = format!(\"{{:?}}\", rt::block_on(the_fn{tf}({recv_direct}, {vals})));\n    let t_direct = rt::take();\n    let via = format!(\"{{:?}}\", rt::block_on(TheTrait{tfish}::the_fn(&app, {vals})));\n    rt::expect_eq(&mut fails, \"awaited result of the trait method vs the fn\", &via, &direct);\n    let t_via = rt::take();\n    rt::expect_eq(&mut fails, \"the body ran to completion exactly once (trace)\", &t_via, &t_direct);\n    if t_direct.len() != 1 {{ fails.push(String::from(\"HARNESS: direct call did not run the body once\")); }}\n    fails\n}}\n"
             ));
             summary = format!("{attr} {}", f.lines().next().unwrap_or(""));
         }
@@ -202,12 +203,12 @@ fn build(spec: &Spec, negative: Option<&str>) -> (String, String) {
                 // the trait must be usable as `dyn`: only true if async_trait was re-applied to it
                 src.push_str("fn use_dyn(d: &dyn Tr) -> bool { let _ = d; true }\n");
                 src.push_str(&format!(
-                    "pub fn run() -> Vec<String> {{\n    let mut fails = vec![];\n    let app = ::entrait::Impl::new(DApp {{ rec: Rec {{ name: String::from(\"rn\") }} }});\n    let direct = format!(\"{{:?}}\", rt::block_on(Tr::m(&app.rec, {vals})));\n    let via = format!(\"{{:?}}\", rt::block_on(Tr::m(&app, {vals})));\n    rt::expect_eq(&mut fails, \"awaited result through Impl<T> vs the provider\", &via, &direct);\n    let _ = use_dyn(&app.rec);\n    fails\n}}\n"
+                    "pub fn run() -> Vec<String> {{\n    let mut fails = vec![];\n    let app = ::entrait::Impl::new(DApp {{ rec: Rec {{ name: String::from(\"rn\") }} }});\n    let _ = rt::take();\n    let direct = format!(\"{{:?}}\", rt::block_on(Tr::m(&app.rec, {vals})));\n    let t_direct = rt::take();\n    let via = format!(\"{{:?}}\", rt::block_on(Tr::m(&app, {vals})));\n    rt::expect_eq(&mut fails, \"awaited result through Impl<T> vs the provider\", &via, &direct);\n    let _ = use_dyn(&app.rec);\n    let t_via = rt::take();\n    rt::expect_eq(&mut fails, \"the body ran to completion exactly once (trace)\", &t_via, &t_direct);\n    if t_direct.len() != 1 {{ fails.push(String::from(\"HARNESS: direct call did not run the body once\")); }}\n    fails\n}}\n"
                 ));
             } else {
                 src.push_str(&witness("Tr", "m", want_send_witness, ""));
                 src.push_str(&format!(
-                    "pub fn run() -> Vec<String> {{\n    let mut fails = vec![];\n    let app = ::entrait::Impl::new(Rec {{ name: String::from(\"rn\") }});\n    let direct = format!(\"{{:?}}\", rt::block_on(Tr::m(&*app, {vals})));\n    let via = format!(\"{{:?}}\", rt::block_on(Tr::m(&app, {vals})));\n    rt::expect_eq(&mut fails, \"awaited result through Impl<T> vs the provider\", &via, &direct);\n    fails\n}}\n"
+                    "pub fn run() -> Vec<String> {{\n    let mut fails = vec![];\n    let app = ::entrait::Impl::new(Rec {{ name: String::from(\"rn\") }});\n    let _ = rt::take();\n    let direct = format!(\"{{:?}}\", rt::block_on(Tr::m(&*app, {vals})));\n    let t_direct = rt::take();\n    let via = format!(\"{{:?}}\", rt::block_on(Tr::m(&app, {vals})));\n    rt::expect_eq(&mut fails, \"awaited result through Impl<T> vs the provider\", &via, &direct);\n    let t_via = rt::take();\n    rt::expect_eq(&mut fails, \"the body ran to completion exactly once (trace)\", &t_via, &t_direct);\n    if t_direct.len() != 1 {{ fails.push(String::from(\"HARNESS: direct call did not run the body once\")); }}\n    fails\n}}\n"
                 ));
             }
             summary = format!("{attr} {}trait Tr{sup} {{ {msig}; }}", at.trim());
@@ -225,7 +226,7 @@ fn build(spec: &Spec, negative: Option<&str>) -> (String, String) {
             src.push_str("impl DelegateTr<Self> for App { type Target = X; }\n");
             src.push_str(&witness("Tr", "m", want_send_witness, ""));
             src.push_str(&format!(
-                "pub fn run() -> Vec<String> {{\n    let mut fails = vec![];\n    let app = ::entrait::Impl::new(App {{ name: String::from(\"an\") }});\n    let direct = format!(\"{{:?}}\", rt::block_on(X::m(&app, {vals})));\n    let via = format!(\"{{:?}}\", rt::block_on(Tr::m(&app, {vals})));\n    rt::expect_eq(&mut fails, \"awaited result through Impl<T> vs the implementation block\", &via, &direct);\n    fails\n}}\n"
+                "pub fn run() -> Vec<String> {{\n    let mut fails = vec![];\n    let app = ::entrait::Impl::new(App {{ name: String::from(\"an\") }});\n    let _ = rt::take();\n    let direct = format!(\"{{:?}}\", rt::block_on(X::m(&app, {vals})));\n    let t_direct = rt::take();\n    let via = format!(\"{{:?}}\", rt::block_on(Tr::m(&app, {vals})));\n    rt::expect_eq(&mut fails, \"awaited result through Impl<T> vs the implementation block\", &via, &direct);\n    let t_via = rt::take();\n    rt::expect_eq(&mut fails, \"the body ran to completion exactly once (trace)\", &t_via, &t_direct);\n    if t_direct.len() != 1 {{ fails.push(String::from(\"HARNESS: direct call did not run the body once\")); }}\n    fails\n}}\n"
             ));
             summary = format!("{attr} trait Tr {{ {msig_trait}; }} + #[entrait] impl TrImpl for X");
         }
